@@ -344,9 +344,7 @@ func isArray(buf []byte) bool {
 Loop:
 	for _, c := range buf {
 		switch c {
-		case ' ':
-		case '\n':
-		case '\t':
+		case ' ', '\n', '\t', '\r':
 			continue
 		case '[':
 			return true
@@ -815,7 +813,7 @@ func (p Patch) ApplyIndent(doc []byte, indent string) ([]byte, error) {
 	}
 
 	var pd container
-	if doc[0] == '[' {
+	if isArray(doc) {
 		pd = &partialArray{}
 	} else {
 		pd = &partialDoc{}
